@@ -88,9 +88,21 @@ func c04Scenarios(tier string) []*Scenario {
 				}
 			}
 		}
+		// per-RPC credentials: the context may end before, while or after they are fetched
+		for _, c := range []string{"cancel", "deadline"} {
+			for _, rpc := range []RPC{
+				{Kind: "unary", Client: []string{"I"}, Handler: []string{"dec", "ret:ok"}},
+				{Kind: "unary", Client: []string{"I"}, Handler: []string{"dec", "w", "ret:ctx"}},
+				{Kind: "ss", Client: []string{"S0", "C", "R*"}, Handler: []string{"r", "s0", "ret:ok"}},
+			} {
+				sc := sc1("C04", c+"|creds|"+rpcName(rpc), tr, c, rpc)
+				sc.Opts = "creds"
+				out = append(out, sc)
+			}
+		}
 		// handler returns a context error of its own; nobody cancels
 		for _, k := range []string{"unary", "ss", "cs", "bd"} {
-			for _, ret := range []string{"ret:canceled", "ret:deadline"} {
+			for _, ret := range []string{"ret:canceled", "ret:deadline", "ret:wrapcancel", "ret:wrapdl"} {
 				var rpc RPC
 				switch k {
 				case "unary":
